@@ -19,8 +19,16 @@ templates below raises GenError and the run continues on the committed baseline 
 import ast
 from common import *
 import regex_tr
+import failclosed
 
 SRC = 'oslo_utils/specs_matcher.py'
+# the four functions: one undecorated definition each, bound to its name at run time; op_methods (read as a dict LITERAL) assigned once
+# and never mutated; pyparsing / ast / operator the real modules (tools/gen/failclosed.py)
+_NOD = {'defaults': {}}
+FAILCLOSED = {'generate': [{'src': SRC, 'mod': 'oslo_utils.specs_matcher',
+    'functions': {'make_grammar': _NOD, '_all_in': _NOD, '_range_in': _NOD, 'match': _NOD},
+    'constants': {'op_methods': {'evaluate': False}},
+    'imports': {'pyparsing': 'pyparsing', 'ast': 'ast', 'operator': 'operator'}}]}
 
 CMP = {ast.Lt: 'CLt', ast.LtE: 'CLe', ast.Eq: 'CEq', ast.NotEq: 'CNe', ast.GtE: 'CGe', ast.Gt: 'CGt'}
 OPERATOR_ATTR = {'lt': 'CLt', 'le': 'CLe', 'eq': 'CEq', 'ne': 'CNe', 'ge': 'CGe', 'gt': 'CGt'}
@@ -327,6 +335,7 @@ def coq_strs(l):
 
 
 def generate():
+    failclosed.check_all(FAILCLOSED['generate'])
     repo_import('oslo_utils.specs_matcher')          # the module must come from the checked repository
     import pyparsing
     g = grammar()
